@@ -28,8 +28,18 @@ STD_CLASSES: List[dict] = [
     {"kind": "data", "hashable": True, "fields": [("v", None, None, True)]},                          # 9
     {"kind": "typed", "total": False, "fields": [("r", None, None, True), ("n", None, None, False)]},  # 10
     {"kind": "plain", "hashable": False},                                                             # 11
+    # a dataclass whose __post_init__ sets a non-field attribute
+    {"kind": "data", "post_init": True, "fields": [("a", None, None, True)]},                         # 12
+    # Base2 (a, b required) and Derived2(Base2) which gives b a default
+    {"kind": "data", "fields": [("a", None, None, True), ("b", None, None, True)]},                   # 13
+    {"kind": "data", "base_cls": 13, "own": 1,
+     "fields": [("a", None, None, True), ("b", None, ("VInt", 5), False)]},                           # 14
+    # a slots dataclass deriving from the plain dataclass 0 (instances have an empty __dict__)
+    {"kind": "data_slots", "base_cls": 0, "own": 0,
+     "fields": [("a", None, None, True), ("b", None, ("VInt", 5), False)]},                           # 15
 ]
-C_DATA, C_SLOTS, C_NAMED, C_TYPED, C_PLAIN, C_STR, C_INT, C_DICT, C_LIST, C_FROZEN, C_TYPED2, C_UNHASH = range(12)
+(C_DATA, C_SLOTS, C_NAMED, C_TYPED, C_PLAIN, C_STR, C_INT, C_DICT, C_LIST, C_FROZEN, C_TYPED2, C_UNHASH,
+ C_POSTINIT, C_BASE2, C_DERIVED2, C_SLOTSUB) = range(16)
 
 
 def S(s: str):
@@ -284,6 +294,10 @@ CLASS_SCHEMAS = {
     C_NAMED: ("RkNamed", [("x", True), ("y", False)]),
     C_TYPED: ("RkTyped", [("k", True), ("o", False)]),
     C_TYPED2: ("RkTyped", [("r", True), ("n", False)]),
+    C_POSTINIT: ("RkData", [("a", True)]),
+    C_BASE2: ("RkData", [("a", True), ("b", True)]),
+    C_DERIVED2: ("RkData", [("a", True), ("b", False)]),
+    C_SLOTSUB: ("RkData", [("a", True), ("b", False)]),
 }
 
 
